@@ -230,3 +230,75 @@ def gen_project(ch, tag):
     calls = " + ".join(f"lib{i}(x, {i + 1})" for i in ch.perm(used, "callord"))
     main = decl + f"int entry{tag}(int x) {{ return {calls}; }}\n"
     return main, members
+
+
+def gen_c3_unit(ch, tag="m"):
+    """Small C3 module: globals, several functions with many live locals,
+    while loops, if/else, calls."""
+    out = [f"module mod{tag};"]
+    globs = []
+    for i in range(ch.draw(4, "c3nglob")):
+        out.append(f"var int g{i};")
+        globs.append(f"g{i}")
+    funcs = []
+
+    def expr(vars_, depth):
+        if depth <= 0 or ch.chance(1, 4, "c3leaf"):
+            k = ch.weighted([5, 2, 1], "c3leafkind")
+            if k == 0 and vars_:
+                return ch.pick(vars_, "c3var")
+            if k == 2 and globs:
+                return ch.pick(globs, "c3glob")
+            return ch.pick(["1", "2", "7", "100", "65535", "305419896",
+                            "4096"], "c3const")
+        k = ch.weighted([8, 2], "c3exprkind")
+        if k == 0 or not funcs:
+            op = ch.pick(["+", "-", "*", "&", "|", "^"], "c3op")
+            return f"({expr(vars_, depth - 1)} {op} {expr(vars_, depth - 1)})"
+        name, n = ch.pick(funcs, "c3callee")
+        return name + "(" + ", ".join(expr(vars_, depth - 2)
+                                      for _ in range(n)) + ")"
+
+    def block(vars_, depth, pad):
+        lines = []
+        for _ in range(1 + ch.draw(4, "c3nstmt")):
+            k = ch.weighted([6, 2, 2], "c3stmt") if depth > 0 else 0
+            if k == 0:
+                lines.append(f"{pad}{ch.pick(vars_, 'c3tgt')} = "
+                             f"{expr(vars_, 2)};")
+            elif k == 1:
+                lines.append(f"{pad}if ({expr(vars_, 1)} < "
+                             f"{expr(vars_, 1)}) {{")
+                lines += block(vars_, depth - 1, pad + "  ")
+                lines.append(f"{pad}}} else {{")
+                lines += block(vars_, depth - 1, pad + "  ")
+                lines.append(f"{pad}}}")
+            else:
+                iv = ch.pick(vars_, "c3loopvar")
+                lines.append(f"{pad}{iv} = 0;")
+                lines.append(f"{pad}while ({iv} < {1 + ch.draw(9, 'c3lim')}) "
+                             f"{{")
+                body = [v for v in vars_ if v != iv] or vars_
+                lines += block(body, depth - 1, pad + "  ")
+                lines.append(f"{pad}  {iv} = {iv} + 1;")
+                lines.append(f"{pad}}}")
+        return lines
+
+    for i in range(1 + ch.draw(4, "c3nfun")):
+        nparams = ch.draw(4, "c3nparams")
+        params = [f"p{j}" for j in range(nparams)]
+        out.append(f"function int f{i}("
+                   + ", ".join("int " + q for q in params) + ")")
+        out.append("{")
+        vars_ = list(params)
+        nloc = 1 + ch.draw(8, "c3nlocals")
+        for j in range(nloc):
+            out.append(f"  var int v{j};")
+        for j in range(nloc):
+            out.append(f"  v{j} = {expr(vars_, 2)};")
+            vars_.append(f"v{j}")
+        out += block(vars_, 2, "  ")
+        out.append("  return " + " + ".join(vars_) + ";")
+        out.append("}")
+        funcs.append((f"f{i}", nparams))
+    return "\n".join(out) + "\n"
